@@ -477,14 +477,10 @@ Definition run_from (st : state) (ls : list label) : state :=
 Definition touches (T : ts) (b : batch) : bool :=
   match evs_for T (b_evs b) with [] => false | _ => true end.
 
-Fixpoint sorted_keys (m : amap) : bool :=
+Fixpoint nodup_keys (m : amap) : bool :=
   match m with
   | [] => true
-  | (k, _) :: r =>
-      match r with
-      | [] => true
-      | (k', _) :: _ => key_ltb k k' && sorted_keys r
-      end
+  | (k, _) :: r => negb (existsb (fun kv => key_eqb k (fst kv)) r) && nodup_keys r
   end.
 
 (* the topic/subject a Subscribe label is about: the client's own when it already exists *)
@@ -509,7 +505,7 @@ Definition step_ok (st : state) (l : label) : bool :=
       | _, _ => forallb (fun b => negb (touches T' b) || N.leb (b_idx b) qidx) (st_log st)
                 && N.leb qidx (st_hi st)
       end
-  | LRestore rows _ => sorted_keys rows
+  | LRestore rows _ => nodup_keys rows        (* a store has one row per key *)
   | _ => true
   end.
 
